@@ -87,6 +87,9 @@ def run(tier):
         rnd = random_for(json.dumps(P, sort_keys=True))
         for label, pre in prefixes(P, tier, rnd):
             w = ic.wrap(P, ic.prog_id(P, [label, str(pre)]), pre)
+            # a third of the bodies with an `eval` (and no `return`, which means something else in a sourced text) run it as a sourced text instead
+            if any(n["t"] == "eval" for n in P) and not any(n["t"] == "ret" for n in P) and int(w["id"][1:7], 16) % 3 == 0:
+                w["src"] = True
             wrapped.append(w)
             labels[w["id"]] = label
     wrapped = ic.cap(wrapped, int(os.environ.get("VERIF_THOROUGH_CAP", "40000")))
@@ -108,7 +111,7 @@ def run(tier):
         "traces_validated_against_impl": len(wrapped) * len(fronts),
         "evaluations": 2 * len(wrapped) * len(fronts), "distinct_nontrivial": nt,
         "rule": "bodies generated by TLC (InterpGen profile C16: each way out - end of script, exit n, errexit, nounset, ${x:?}, exec, return - at every "
-                "position of every construct-in-construct chain) x trap prefix (set / replaced / removed / ERR+EXIT / ERR only / errtrace) x handler "
+                "position of every construct-in-construct chain; a third of the bodies with an eval run it as a sourced text) x trap prefix (set / replaced / removed / ERR+EXIT / ERR only / errtrace) x handler "
                 "(marker, failing command, function call, `exit m`, changes another trap) x option sets x front-end (-c, script file, stdin); "
                 "non-trivial = the model ran the EXIT handler (xruns = 1) or an ERR handler (gh.err > 0)",
         "bodies_generated": total, "strata": groups, "programs_run": len(wrapped), "fronts": list(fronts),
